@@ -364,7 +364,8 @@ func enumerationsAgree(t *tree.Tree) string {
 
 // maskBelow: set of tip labels in the subtree of n when coming from parent.
 func maskBelow(n, parent *tree.Node, extra map[string]int) uint64 {
-	if n.Tip() {
+	// (a root with a single neighbour is not a tip)
+	if n.Tip() && (parent != nil || n.Name() != "") {
 		return 1 << uint(tipLabel(n.Name(), extra))
 	}
 	var m uint64
